@@ -49,7 +49,7 @@ CODE_TEXT = {
 }
 
 # C20's own findings that the oracle / the correspondence recognise structurally (signature -> see findings.d)
-OWN_CAUSES = ("C20:definition-line-unknown", "C20:definition-line-of-value")
+OWN_CAUSES = ("C20:definition-line-unknown", "C20:definition-line-of-value", "C20:later-import-kept")
 
 
 # ============================================================================ rope on one (valid) module
@@ -70,7 +70,8 @@ def observe_rope(src):
 
     def guarded(entry, o, f):
         try:
-            return f()
+            with c20_sweep.time_limit():
+                return f()
         except Exception as e:  # noqa: BLE001
             sig = c20_sweep.signature_of(entry, e, e.__traceback__, src, o)
             out["exc"].append({"kind": "sweep", "entry": entry, "text": src, "offset": o, "maxfixes": 1,
@@ -111,7 +112,8 @@ def observe_definitions(src, tree):
     out = []
     for (o, node) in name_tokens(tree, src):
         try:
-            r, line = codeassist.get_definition_location(pr, src, o, resource=res, maxfixes=1)
+            with c20_sweep.time_limit():
+                r, line = codeassist.get_definition_location(pr, src, o, resource=res, maxfixes=1)
             same = r is None or r == res
             out.append((o, node, line, same, None))
         except Exception as e:  # noqa: BLE001
@@ -263,12 +265,27 @@ def _check_observed(src, o15, res, count):
                 if not base.startswith(starting):
                     res["problems"].append({"focus": "proposal-does-not-extend-starting", "offset": o,
                                             "later_locals": ll, "detail": nm})
+        for ll, got in ((True, pt), (False, pf)):
+            if isinstance(got, set) and any(sc == "parameter_keyword" for (_n, sc) in got) and not pos.in_ignored:
+                count("offsets:with-name=-proposals")
+                params = orc.call_params(o)
+                if params is not None:
+                    for (nm, sc) in got:
+                        if sc == "parameter_keyword" and nm[:-1] not in params:
+                            res["problems"].append({"focus": "parameter-keyword-not-a-parameter", "offset": o,
+                                                    "later_locals": ll, "detail": nm})
         if pos.in_ignored:
             count("offsets:in-string-or-comment")
         if not pos.dotted and not pos.in_ignored:
             for ll, got in ((True, pt), (False, pf)):
                 if isinstance(got, set) and any(sc == "attribute" for (_n, sc) in got):
                     res["problems"].append({"focus": "attribute-proposal-without-dot", "offset": o,
+                                            "later_locals": ll, "detail": repr(sp)})
+        if pos.dotted and not pos.in_ignored and not pos.from_import:
+            # something is dotted: keywords are never attributes
+            for ll, got in ((True, pt), (False, pf)):
+                if isinstance(got, set) and any(sc == "keyword" for (_n, sc) in got):
+                    res["problems"].append({"focus": "keyword-proposal-after-dot", "offset": o,
                                             "later_locals": ll, "detail": repr(sp)})
         if pos.dotted or pos.from_import or pos.in_ignored or not pos.name_position:
             count("offsets:oracle-prefix-only")
@@ -428,24 +445,33 @@ def replay(ctx, obj):
             return r["inherited"].get(focus[len("inherited:"):], 0) > 0
         if focus.startswith("exc:"):
             return any(e["focus"] == focus for e in r["exceptions"])
-        return any(p["focus"] == focus for p in r["problems"]) if focus else bool(r["problems"])
+        if focus:
+            return any(p["focus"] == focus for p in r["problems"])
+        # no focus (regression inputs of fixed defects): anything the run would report
+        if r["problems"] or r["exceptions"]:
+            return True
+        if r["case"] is not None:
+            codes, _dom = coq_codes(ctx, [r["case"]])
+            return codes.get(0, 0) not in (0, 9)
+        return False
     return True
 
 
 def _replay_with_resource(obj):
+    from rope.contrib import codeassist
     try:
-        from rope.contrib import codeassist
         pr = c15.project()
         res = c15._resource
+        e = obj["entry"]
         try:
-            e = obj["entry"]
-            if e.startswith("code_assist"):
-                codeassist.code_assist(pr, obj["text"], obj["offset"], resource=res, maxfixes=obj.get("maxfixes", 1),
-                                       later_locals=(e == "code_assist"))
-            elif e == "get_definition_location":
-                codeassist.get_definition_location(pr, obj["text"], obj["offset"], resource=res)
-            else:
-                codeassist.starting_offset(obj["text"], obj["offset"])
+            with c20_sweep.time_limit():
+                if e.startswith("code_assist"):
+                    codeassist.code_assist(pr, obj["text"], obj["offset"], resource=res,
+                                           maxfixes=obj.get("maxfixes", 1), later_locals=(e == "code_assist"))
+                elif e == "get_definition_location":
+                    codeassist.get_definition_location(pr, obj["text"], obj["offset"], resource=res)
+                else:
+                    codeassist.starting_offset(obj["text"], obj["offset"])
         except Exception as ex:  # noqa: BLE001
             valid = c20_sweep.is_valid(obj["text"])
             ids = c20_sweep.identifier_offsets(obj["text"]) if valid else set()
@@ -465,6 +491,11 @@ FIXED = [
     "al = 1\nbe = al.real \nbe = (al, be) \n",
     "def fo(al):\n    (wa := al)\n    an: int\n    an = wa\n    return wa, an\n",
     "fo = (\n    1)\nfor al in (\n        fo):\n    pass\nprint(fo, al)\n",
+    "sa = ''\nisa = sa.isa\nprint(sa.isa, isa)\n",
+    # keyword-argument proposals for a callee that is statically known
+    "def go(al, alp=0, *va, **kw):\n    return al\nres = go(1, alp=2)\nres = go(al=3)\n",
+    # a try statement that runs to the end of the file (the repair path patches a dangling try:)
+    "al = 1\ndef fo():\n    try:\n        be = al\n    except Exception:\n        be = 2\n    return be\ntry:\n    xa = fo()\nfinally:\n    xa = 0\n",
 ]
 
 
@@ -475,10 +506,10 @@ def run(ctx):
                 "query of code_assist, one definition lookup, or one swept call; non-trivial = an undotted position on "
                 "a code line whose typed prefix is non-empty or whose holding scope is not the module; distinct by "
                 "(module text, offset, later_locals)")
-    n_main = ctx.scale(8, 60)
-    n_plus = ctx.scale(3, 30)
+    n_main = ctx.scale(14, 100)
+    n_plus = ctx.scale(5, 40)
     size = ctx.scale(7, 10)
-    sweep_all = ctx.scale(6, 40)         # modules that get the exhaustive sweep (every truncation)
+    sweep_all = ctx.scale(14, 60)        # generated main modules that get the exhaustive sweep (+ the fixed ones)
     sources = [(s, "fixed") for s in FIXED]
     for _ in range(n_main):
         s = c20_gen.gen_source(ctx.rng, (), size)
@@ -492,8 +523,8 @@ def run(ctx):
     tasks = []
     swept = 0
     for i, (s, stream) in enumerate(sources):
-        do_sweep = stream in ("main", "fixed") and swept < sweep_all
-        swept += 1 if do_sweep else 0
+        do_sweep = stream == "fixed" or (stream == "main" and swept < sweep_all)
+        swept += 1 if (do_sweep and stream == "main") else 0
         tasks.append((i, s, stream, do_sweep, True))
     c15.close_project()
     jobs = int(os.environ.get("VERIF_JOBS", "8"))
@@ -524,8 +555,6 @@ def report(ctx, results):
                               "C20: %s" % cause)
         nt = r["counts"].get("offsets:undotted", 0)
         src = r["src"]
-        for o in range(0, r["counts"].get("offsets", 0)):
-            pass
         ctx.evaluations += 2 * r["counts"].get("offsets", 0) + r["counts"].get("definition-lookups", 0)
         for o in range(nt):
             ctx.nontrivial.add(hash((src, o)))
